@@ -494,6 +494,14 @@ pub fn run(args: &[String]) -> i32 {
     coverage.insert("rule".into(), json!(meta.rule));
     coverage.insert("samples".into(), Value::Array(merged.samples.clone()));
     coverage.insert("cases_planned".into(), json!(total));
+    coverage.insert(
+        "listed_findings_not_observed".into(),
+        json!(known
+            .for_prop(&prop)
+            .filter(|f| !merged.known.contains_key(&f.key))
+            .map(|f| f.key.clone())
+            .collect::<Vec<_>>()),
+    );
     coverage.insert("shards".into(), json!(nshards));
     coverage.insert("shards_incomplete".into(), json!(incomplete));
     coverage.insert("observed".into(), json!(merged.buckets));
@@ -565,6 +573,13 @@ pub fn run(args: &[String]) -> i32 {
             "KNOWN-FINDING: property={} {} — {} (observed {} times, e.g. {})",
             prop, key, what, n, w
         );
+    }
+    if replay.is_none() {
+        for f in known.for_prop(&prop) {
+            if !merged.known.contains_key(&f.key) {
+                println!("NOTE: listed finding {} of {} was not observed by this run", f.key, prop);
+            }
+        }
     }
     // Violations.
     let mut printed = 0;
